@@ -93,7 +93,7 @@ pub fn eval_par(case: &ParCase, obs: &mut CaseObs, prop: &str, known: &KnownFind
     });
     let outcome = run_scheduled(case, &o, primals.clone(), false);
     let (out, rep) = match outcome {
-        SchedOutcome::HarnessTimeout => return (Verdict::HarnessError("scheduled run: harness wall-clock watchdog expired (inconclusive)".into()), vec![]),
+        SchedOutcome::HarnessTimeout => return (Verdict::HarnessError("scheduled run: neither a result nor a scheduler verdict within 30 s although exactly one worker held the turn: a worker announced as notified (AfterNotifyAll hook) never resumed, i.e. the scheduler no longer models the code under test (or the machine is badly overloaded). Inconclusive; the remaining scheduled cases of this process are skipped".into()), vec![]),
         SchedOutcome::Stuck(rep) => {
             let why = match &rep.stuck {
                 Some(Stuck::Deadlock(st)) => format!("deadlock: no runnable worker while some are parked for ever; worker states {:?}; a worker panicked: {}", st, rep.worker_panicked),
@@ -137,6 +137,9 @@ pub fn eval_par(case: &ParCase, obs: &mut CaseObs, prop: &str, known: &KnownFind
     }
     if rep.abort_with_other_in_flight {
         obs.label("abort-while-other-in-flight");
+    }
+    if rep.skipped_notifications > 0 {
+        obs.label("AfterNotifyAll-without-real-notification");
     }
     obs.label(format!(
         "decisions:{}",
@@ -401,6 +404,9 @@ fn eval_stress(c: &StressCase, obs: &mut CaseObs, prop: &str) -> Verdict {
     }
 }
 fn stress(ctx: &mut Ctx, prop: &'static str) {
+    if !ctx.stats.violations.is_empty() {
+        return; // already decided by the scheduled part; a real-thread hang would only cost a watchdog period
+    }
     // shards run concurrently: keep the number of OS threads reasonable
     let cases = ctx.tier.pick(600, 8_000);
     let p = GenParams { n: (4, 7), b: (2, 4), nd: (2, 3), embed: None, allow_irrelevance: true, allow_potential: true };
